@@ -40,6 +40,14 @@ func main() {
 		for _, d := range dropped {
 			fmt.Println("dropped:", d)
 		}
+	case "sweep":
+		fs := flag.NewFlagSet("sweep", flag.ExitOnError)
+		filter := fs.String("pkg", "", "package path filter")
+		dis := fs.Bool("discharge", false, "discharge panic obligations")
+		v := fs.Bool("v", false, "verbose")
+		fs.BoolVar(&os_debug, "debug", false, "engine panics are fatal")
+		fs.Parse(os.Args[2:])
+		runSweep(*filter, *dis, *v)
 	case "check":
 		fs := flag.NewFlagSet("check", flag.ExitOnError)
 		cfg := checkCfg{}
